@@ -60,9 +60,9 @@ def _in_support_data(rs, root, ncols, n):
 
 
 def make_step(rs, root, ncols, kind):
-    """choose the arguments of one step (recorded explicitly)"""
-    if kind == 'query':
-        q = str(rs.choice(['mpe', 'sample', 'log_likelihood', 'likelihood']))
+    """choose the arguments of one step (recorded explicitly); 'query:mpe' etc. fix the kind of query"""
+    if kind.startswith('query'):
+        q = kind.split(':')[1] if ':' in kind else str(rs.choice(['mpe', 'sample', 'log_likelihood', 'likelihood']))
         miss = [[bool(rs.rand() < 0.5) for _ in range(ncols)] for _ in range(3)]
         return dict(op='query', q=q, miss=miss, seed=int(rs.randint(10 ** 6)))
     if kind in ('em', 'em-random-init'):
@@ -148,15 +148,17 @@ def do_step(root, st, ncols=None):
     return root, 'ok'
 
 
-def apply_history(rs, root, ncols, n_steps, kinds=None, count=None):
+def apply_history(rs, root, ncols, n_steps, kinds=None, count=None, first=None):
+    """`first`: kinds the first step is drawn from (e.g. ['query:mpe'] so that a cache a later step may leave stale is filled)"""
     kinds = list(kinds or KINDS)
     if not em_capable(root):
         kinds = [k for k in kinds if not k.startswith('em')]
     else:
         kinds = kinds + [k for k in kinds if k.startswith('em') or k == 'query']     # EM and earlier queries twice as likely
     steps = []
-    for _ in range(n_steps):
-        kind = kinds[rs.randint(len(kinds))]
+    for i_ in range(n_steps):
+        pool = list(first) if (first and i_ == 0) else kinds
+        kind = pool[rs.randint(len(pool))]
         if kind == 'saveload' and any(len({id(c) for c in n.children}) != len(n.children) for n in _nodes(root) if getattr(n, 'children', None)):
             kind = 'deepcopy'   # a node listing one child object twice cannot be saved (known finding F15 of C13): not part of these histories
         st = make_step(rs, root, ncols, kind)
